@@ -19,7 +19,7 @@ NormScale == 1000
 NormCap   == 2000000
 ValueBound == 4           \* |entry| of every input array (integers in -2..2; numerators of half-integers in -4..4)
 
-RunFields == {"rejected", "raised", "convert", "exact", "dtype", "dense2", "dense", "unf", "vec", "shape", "rank", "norm"}
+RunFields == {"rejected", "raised", "convert", "exact", "dtype", "dense2", "unfn", "dense", "unf", "vec", "shape", "rank", "norm"}
 IsLoggedT(T) == /\ {"shape", "data"} \subseteq DOMAIN T
 TensOKs(ts) == \A k \in 1..Len(ts) : IsLoggedT(ts[k]) /\ IsTAny(ts[k])
 Bounded(T) == \A n \in 1..Len(T.data) : T.data[n] \in (-ValueBound)..ValueBound
@@ -56,7 +56,7 @@ WellFormed(e) ==
           /\ \A x \in 1..Len(e.runs[k].xnorms) : {"has", "fin0", "fin3", "fin6", "q3", "q0", "q6", "iszero"} \subseteq DOMAIN e.runs[k].xnorms[x]
           /\ (e.cfg.op = "cp" => "masked" \in DOMAIN e.runs[k])
           /\ (e.cfg.op = "ttm" => "matrix" \in DOMAIN e.runs[k])
-          /\ (e.cfg.op = "p2" => {"slices", "slice1", "slices_nv", "slice1_nv"} \subseteq DOMAIN e.runs[k])
+          /\ (e.cfg.op = "p2" => {"slices", "slice1", "slices_nv", "slice1_nv", "slice1n"} \subseteq DOMAIN e.runs[k])
 
 \* the harness filled exactly the arrays the exported configuration asked for
 InDomain(e) ==
@@ -123,8 +123,11 @@ Verdict(e) ==
         CV(x, Tre, Tim) == /\ IsLoggedT(x) /\ SameT(x, Tre)
                            /\ (cplx => /\ "im" \in DOMAIN x /\ Len(x.im) = Len(Tim.data)
                                        /\ \A n \in 1..Len(x.im) : x.im[n] = (IF izero THEN 0 ELSE isgn * Tim.data[n]))
-        UnfOK(r) == /\ Len(r.unf) = N
-                    /\ \A m \in 0..(N - 1) : CV(r.unf[m + 1], Unfold(D, m), Unfold(DI, m))
+        \* (the harness spells the mode / slice index as a Python int or a NumPy integer; in `unfn` / `slice1n` it is
+        \*  counted from the back, mode - order / i - I: the same mode, the same slice)
+        UnfSeqOK(u) == /\ Len(u) = N
+                       /\ \A m \in 0..(N - 1) : CV(u[m + 1], Unfold(D, m), Unfold(DI, m))
+        UnfOK(r) == UnfSeqOK(r.unf)
         AbsD(x) == IF x < 0 THEN -x ELSE x
         \* (under a total-magnitude scaling 2^e the harness multiplies the reported norm by 2^-e, exactly, before squaring)
         \* q6 = rint(norm^2 * 10^6): for N2 <= FineCap the comparison resolves 5e-7 / N2 relative (float64 error ~1e-15)
@@ -149,7 +152,6 @@ Verdict(e) ==
             ELSE IF c.mix # "none" /\ r.dtype # (IF cplx /\ izero THEN "float64" ELSE c.outdtype) THEN "Dtype"
             ELSE IF needviews /\ ~UnfOK(r) THEN "Unfolded"
             ELSE IF needviews /\ ~CV(r.vec, Vec(D), Vec(DI)) THEN "Vec"
-            ELSE IF kd = "cp" /\ ~CV(r.masked, Hadamard(D, in.mask), Hadamard(DI, in.mask)) THEN "Masked"
             ELSE IF kd = "ttm" /\ ~CV(r.matrix, TTMMatrix(in), TTMMatrix(inI)) THEN "Matrix"
             ELSE IF kd = "p2" /\ ~SlicesOK(r.slices) THEN "Slices"
             ELSE IF kd = "p2" /\ ~SlicesOK(r.slice1) THEN "Slice"
@@ -160,6 +162,10 @@ Verdict(e) ==
             ELSE IF needmeta /\ r.shape # ShapeOf(kd, in) THEN "Shape"
             ELSE IF needmeta /\ r.rank # RankOf(kd, in) THEN "Rank"
             ELSE IF ~NormOK(r) THEN "Norm"
+            \* (index spellings and the mask last, so that a failure there never hides another clause)
+            ELSE IF kd = "cp" /\ ~CV(r.masked, Hadamard(D, in.mask), Hadamard(DI, in.mask)) THEN "Masked"
+            ELSE IF kd = "p2" /\ ~SlicesOK(r.slice1n) THEN "SliceNeg"
+            ELSE IF needviews /\ ~UnfSeqOK(r.unfn) THEN "UnfoldedNeg"
             ELSE "ok"
         \* The runs of one event usually return identical views: the first run is compared with the
         \* specification, a run whose logged views are identical to an accepted run's is accepted
@@ -169,15 +175,17 @@ Verdict(e) ==
         SameViews(r, s) ==
             /\ r.rejected = s.rejected /\ r.raised = s.raised /\ r.exact = s.exact
             /\ r.dense = s.dense /\ r.unf = s.unf /\ r.vec = s.vec /\ r.shape = s.shape /\ r.rank = s.rank
-            /\ r.dtype = s.dtype /\ r.dense2 = s.dense2
+            /\ r.dtype = s.dtype /\ r.dense2 = s.dense2 /\ r.unfn = s.unfn
             /\ (kd = "cp" => r.masked = s.masked) /\ (kd = "ttm" => r.matrix = s.matrix)
-            /\ (kd = "p2" => r.slices = s.slices /\ r.slice1 = s.slice1 /\ r.slices_nv = s.slices_nv /\ r.slice1_nv = s.slice1_nv)
+            /\ (kd = "p2" => r.slices = s.slices /\ r.slice1 = s.slice1 /\ r.slices_nv = s.slices_nv /\ r.slice1_nv = s.slice1_nv /\ r.slice1n = s.slice1n)
         ClauseOf(k) == IF k = k0 THEN c0
                        ELSE IF c0 = "ok" /\ SameViews(R[k], R[k0]) THEN (IF NormOK(R[k]) THEN "ok" ELSE "Norm")
                        ELSE Clause(R[k])
         bad == {k \in keys : ClauseOf(k) # "ok"}
+        \* one run is reported per event: prefer one failing a main clause over one failing only an index-spelling / mask clause
+        bad1 == {k \in bad : ClauseOf(k) \notin {"Masked", "SliceNeg", "UnfoldedNeg"}}
     IN  IF bad = {} THEN <<"ok", "-">>
-        ELSE LET k == CHOOSE x \in bad : TRUE IN <<ClauseOf(k), k>>
+        ELSE LET k == CHOOSE x \in (IF bad1 # {} THEN bad1 ELSE bad) : TRUE IN <<ClauseOf(k), k>>
 
 TraceInit == i = 1 /\ cfg = NoCfg
 TraceNext == /\ i <= Len(Events)
